@@ -813,6 +813,7 @@ at_value (std::shared_ptr <dwfl_context> dwctx,
     case DW_FORM_strx2:
     case DW_FORM_strx3:
     case DW_FORM_strx4:
+    case DW_FORM_GNU_str_index:
       {
 	const char *str = dwarf_formstring (&attr);
 	if (str == nullptr)
@@ -867,6 +868,8 @@ at_value (std::shared_ptr <dwfl_context> dwctx,
 	return atval_unsigned (attr);
 
     case DW_FORM_addr:
+    case DW_FORM_addrx:
+    case DW_FORM_GNU_addr_index:
     case DW_FORM_addrx1:
     case DW_FORM_addrx2:
     case DW_FORM_addrx3:
